@@ -23,6 +23,22 @@ Proof.
   intros a. unfold eqp. rewrite (Z.mod_small 1 pg) by (unfold pg; lia). reflexivity.
 Qed.
 
+Lemma eqp_one_elim : forall a, a mod pg = 1 -> a ==p 1.
+Proof. intros a. apply (proj1 (eqp_one_iff a)). Qed.
+Lemma eqp_one_intro : forall a, a ==p 1 -> a mod pg = 1.
+Proof. intros a. apply (proj2 (eqp_one_iff a)). Qed.
+
+(* a/b*b = a, with i the inverse of b; all three are plain integers here *)
+Lemma mul_inv_cancel : forall a b i, (b * i) mod pg = 1 ->
+  ((a * i) mod pg * b) mod pg = a mod pg.
+Proof.
+  intros a b i H. apply eqp_one_elim in H.
+  rewrite Z.mul_mod_idemp_l by (unfold pg; lia).
+  fold (eqp (a * i * b) a).
+  replace (a * i * b) with (a * (b * i)) by ring.
+  rewrite H. rewrite Z.mul_1_r. reflexivity.
+Qed.
+
 Lemma mval_mod_self : forall z, mval z mod pg = mval z.
 Proof. intros z. apply Z.mod_small. apply mval_canon. Qed.
 
@@ -396,16 +412,15 @@ Qed.
 Corollary div_mul : forall x y, canon x -> canon y -> y <> 0 ->
   (mval (div x y) * mval y) mod pg = mval x.
 Proof.
-  intros x y Hx Hy Hnz. destruct (div_correct x y Hx Hy) as [_ ->].
-  rewrite Z.mul_mod_idemp_l by exact pg_ne0.
-  pose proof (inverse_mul y Hy Hnz) as Hi.
-  destruct (inverse_correct y Hy) as [_ Hm]. rewrite Hm in Hi.
-  apply eqp_one_iff in Hi.
-  rewrite <- (mval_mod_self x) at 2. fold (eqp (mval x * inv_mod (mval y) pg * mval y) (mval x)).
-  replace (mval x * inv_mod (mval y) pg * mval y)
-    with (mval x * (mval y * inv_mod (mval y) pg)) by ring.
-  rewrite Hi. rewrite Z.mul_1_r. reflexivity.
+  intros x y Hx Hy Hnz. destruct (div_correct x y Hx Hy) as [_ Hd]. rewrite Hd.
+  rewrite (mul_inv_cancel (mval x) (mval y) (inv_mod (mval y) pg)).
+  - apply mval_mod_self.
+  - apply inv_mod_pg. rewrite mval_mod_self.
+    intros H0. apply Hnz. apply (mval_zero_iff y Hy). exact H0.
 Qed.
+
+Lemma two_mod_pg : 2 mod pg <> 0.
+Proof. rewrite Z.mod_small by (unfold pg; lia). lia. Qed.
 
 Lemma mval_two : mval (doubleGeneric one) = 2.
 Proof.
@@ -420,14 +435,10 @@ Proof.
   destruct (double_correct one canon_one) as [Hc2 _].
   destruct (inverse_correct _ Hc2) as [Hci Hmi]. rewrite mval_two in Hmi.
   destruct (FfgMont.mul_correct z _ Hz Hci) as [Hc Hm].
-  split; [ exact Hc | ]. rewrite Hm, Hmi.
-  rewrite Z.mul_mod_idemp_r by exact pg_ne0.
-  assert (H2 : 2 * inv_mod 2 pg ==p 1).
-  { apply eqp_one_iff. apply inv_mod_pg. rewrite Z.mod_small by (unfold pg; lia). lia. }
-  rewrite <- (mval_mod_self z) at 2.
-  fold (eqp (2 * (mval z * inv_mod 2 pg)) (mval z)).
-  replace (2 * (mval z * inv_mod 2 pg)) with (mval z * (2 * inv_mod 2 pg)) by ring.
-  rewrite H2. rewrite Z.mul_1_r. reflexivity.
+  split; [ exact Hc | ]. rewrite Hm, Hmi. rewrite Z.mul_comm.
+  rewrite (mul_inv_cancel (mval z) 2 (inv_mod 2 pg)).
+  - apply mval_mod_self.
+  - apply inv_mod_pg. exact two_mod_pg.
 Qed.
 
 (* ------------------------------------------------------------------ *)
@@ -466,7 +477,7 @@ Proof.
       destruct (Hbw _ _ _ HcI HI Eb) as (HcO & HO & Hout & Hmap).
       split; [ exact HcO | ]. split; [ exact HO | ].
       split; [ constructor; [ exact canon_0 | exact Hout ] | ].
-      cbn [map]. f_equal; [ | exact Hmap ].
+      cbn [map]. apply f_equal2; [ | exact Hmap ].
       rewrite mval_0. symmetry.
       apply inv_mod_zero; [ exact pg_prime | exact pg_gt_2 | ].
       apply Z.mod_0_l. exact pg_ne0.
@@ -487,15 +498,15 @@ Proof.
       destruct (Hbw _ _ _ HcI HI Eb) as (HcM & HM & Hout & Hmap).
       destruct (FfgMont.mul_correct acc accM Hacc HcM) as [Hcr Hmr].
       destruct (FfgMont.mul_correct accM ai HcM Hai) as [HcO HmO].
-      apply eqp_one_iff in HM. rewrite Hm1 in HM. rewrite eqp_mod in HM.
+      apply eqp_one_elim in HM. rewrite Hm1 in HM. rewrite eqp_mod in HM.
       split; [ exact HcO | ]. split.
-      { apply eqp_one_iff. rewrite HmO, eqp_mod. rewrite <- HM.
+      { apply eqp_one_intro. rewrite HmO, eqp_mod. rewrite <- HM.
         replace (mval accM * mval ai * mval acc) with (mval accM * (mval acc * mval ai)) by ring.
         reflexivity. }
       split; [ constructor; [ exact Hcr | exact Hout ] | ].
-      cbn [map]. f_equal; [ | exact Hmap ].
+      cbn [map]. apply f_equal2; [ | exact Hmap ].
       rewrite Hmr. apply inv_mod_unique; [ exact pg_prime | exact Hainz | ].
-      apply eqp_one_iff. rewrite <- HM.
+      apply eqp_one_intro. rewrite <- HM.
       replace (mval ai * (mval acc * mval accM)) with (mval accM * (mval acc * mval ai)) by ring.
       reflexivity.
 Qed.
